@@ -1397,7 +1397,9 @@ REGISTRY = {
                    "kind 'full' and schema versions at and beyond the window) x (track given / omitted / unknown, both ignore flags)",
                    extra_fn=c12_extra), allow_axioms=(),
         explanation="C12_refinement: the line-by-line transcription Json.read_fields of cdedb::read equals the declarative specification "
-                    "CdeSpec.spec_read for every document and option set (refusals with their reasons included); C12_participants/_order/_kept/"
+                    "CdeSpec.spec_read for every document and option set (refusals with their reasons included); C12_track_selected / "
+                    "_refuse_unknown_track / _refuse_no_or_several_tracks / _single_track_selected (which track, and the track refusals); "
+                    "C12_participants/_order/_kept/"
                     "_courses/_instructors/_limits/_penalty_position say what the specification contains (exactly the registrations with status "
                     "participant in the track's part that are not ignored and have a valid choice or instruct; exactly the offered courses in "
                     "sorted order; limits with defaults; penalty = position); C12_refuse_* the mandatory refusals.  The transcription is tied to the "
